@@ -1,10 +1,191 @@
 /-
   C01 — QCOW2: every byte range reads as the guest-visible content.
--/
-import Hv.Qcow2
-namespace Hv.C01
-open Hv Hv.Qcow2
 
+  Model `Hv/Qcow2.lean` (follows dissect/hypervisor/disk/qcow2.py), pointwise specification
+  `QCow2.guest` and `Conformant` in `Hv/Qcow2Spec.lean` (written from docs/interop/qcow2.txt),
+  proofs in `HvProofs/Qcow2.lean`.
+-/
+import HvProofs.Qcow2
+import HvProofs.Wide
+namespace Hv.C01
+open Hv Hv.Qcow2 Hv.Extracted.qcow2
+
+/-! extracted values = the format document -/
 theorem QCOW2_MAGIC_spec : Extracted.qcow2.QCOW2_MAGIC = 0x514649FB := by decide
+
+theorem consts_spec :
+    L1E_OFFSET_MASK = 2 ^ 56 - 2 ^ 9 ∧ L2E_OFFSET_MASK = 2 ^ 56 - 2 ^ 9 ∧
+    L2E_COMPRESSED_OFFSET_SIZE_MASK = 2 ^ 62 - 1 ∧
+    QCOW_OFLAG_COPIED = 2 ^ 63 ∧ QCOW_OFLAG_COMPRESSED = 2 ^ 62 ∧ QCOW_OFLAG_ZERO = 2 ^ 0 ∧
+    QCOW_EXTL2_SUBCLUSTERS_PER_CLUSTER = 32 ∧ L2E_SIZE_NORMAL = 8 ∧ L2E_SIZE_EXTENDED = 16 ∧
+    MIN_CLUSTER_BITS = 9 ∧ MAX_CLUSTER_BITS = 21 ∧ QCOW2_COMPRESSED_SECTOR_SIZE = 512 ∧
+    QCOW2_INCOMPAT_DATA_FILE = 2 ^ 2 ∧ QCOW2_INCOMPAT_EXTL2 = 2 ^ 4 ∧
+    NORMAL_SUBCLUSTER_TYPES = [4, 3, 1] ∧ ZERO_SUBCLUSTER_TYPES = [2, 3] ∧ UNALLOCATED_SUBCLUSTER_TYPES = [0, 1] := by
+  decide
+
+/-! ### T1 — progress (also the C11 obligation for `_yield_runs`) -/
+
+/-- **yieldRuns_progress**: for *arbitrary* L1 / L2 table contents and bitmaps, `_yield_runs` never runs
+    out of fuel `len` — every run it emits is at least one byte long (the sub-cluster range of the first
+    cluster is non-empty: `cto (bitmap ||| (2^sc − 1)) 32 > sc` for a NORMAL first sub-cluster, etc.).
+    Only the header geometry the gates of `open` enforce is assumed. -/
+theorem yieldRuns_progress (q : QCow2) (h : HdrOK q) (hl1 : q.l1 ≠ .error .nonTermination) (off len : Nat) :
+    q.yieldRuns len off len ≠ .error .nonTermination :=
+  yieldRuns_progress' q (geom q h) hl1 len off len (Nat.le_refl _)
+
+/-- … in particular for every image `open` accepts -/
+theorem yieldRuns_progress_opened (fh : File) (df : Option File) (bk : Option Reader) (allow : Bool)
+    (infl : Bytes → Nat → Except Err Bytes) (q : QCow2) (h : «open» fh df bk allow infl = .ok q) (off len : Nat) :
+    q.yieldRuns len off len ≠ .error .nonTermination :=
+  yieldRuns_progress q (open_ok fh df bk allow infl q h).1 (open_ok fh df bk allow infl q h).2.1 off len
+
+/-- every non-empty sub-cluster range is non-empty, inside the cluster, and uniform — arbitrary entry and bitmap -/
+theorem rangeType_uniform (q : QCow2) (e bm sf t n : Nat) (hsf : sf < q.scPer)
+    (h : q.subclusterRangeType e bm sf = .ok (t, n)) :
+    1 ≤ n ∧ sf + n ≤ q.scPer ∧ q.subclusterType e bm sf = .ok t ∧
+      ∀ s, sf ≤ s → s < sf + n → q.subclusterType e bm s = .ok t :=
+  rangeType_sound q e bm sf t n hsf h
+
+/-! ### T2 — the runs tile the request -/
+
+/-- **yieldRuns_tiles**: the runs are consecutive (`readOffset` of each = end of the previous), non-empty,
+    and cover exactly `[off, off+len)` — arbitrary table contents -/
+theorem yieldRuns_tiles (q : QCow2) (h : HdrOK q) (off len : Nat) (runs : List Run)
+    (hr : q.yieldRuns len off len = .ok runs) : Tiles runs off len :=
+  yieldRuns_tiles' q (geom q h) len off len runs hr
+
+/-! ### T3 — a run is uniform -/
+
+/-- **run_uniform** (`count_contiguous_subclusters` soundness, arbitrary table contents): the `cnt ≥ 1`
+    sub-clusters counted from `scIndex` on all have the type `t0` of the first one and, for NORMAL /
+    ZERO_ALLOC / UNALLOCATED_ALLOC, the entry of the `i`-th following cluster points `i · cluster_size`
+    behind the first (`Good`); a compressed run stays inside its cluster. -/
+theorem run_uniform (q : QCow2) (l2Offset l2Index scIndex k cnt : Nat) (hsc : scIndex < q.scPer)
+    (h : q.countLoop l2Offset l2Index scIndex (k + 1) 0 ⟨0, 0, 0, false⟩ = .ok cnt) :
+    ∃ e bm t0, q.l2Entry l2Offset l2Index = .ok (e, bm) ∧ q.subclusterType e bm scIndex = .ok t0 ∧
+      1 ≤ cnt ∧ (t0 = SC_COMPRESSED → scIndex + cnt ≤ q.scPer) ∧
+      ∀ p, scIndex ≤ p → p < scIndex + cnt → Good q l2Offset l2Index t0 (e &&& L2E_OFFSET_MASK) p :=
+  countLoop_sound q l2Offset l2Index scIndex k cnt hsc h
+
+/-- at byte level, on a conformant image: byte `j` of a mapped run reads as the run's type says, through an
+    entry whose host cluster is `(offset % cs + j) / cs` clusters behind the first -/
+theorem run_uniform_bytes (q : QCow2) (hc : Conformant q) (b : File) (offset length j l1e e bm t cnt : Nat)
+    (hl1e : q.l1Table[offset / 2 ^ (q.l2Bits + q.clusterBits)]? = some l1e)
+    (hl2 : l1e &&& L1E_OFFSET_MASK ≠ 0)
+    (hE : q.l2Entry (l1e &&& L1E_OFFSET_MASK) (offset / q.cs % q.l2Size) = .ok (e, bm))
+    (hgood : ∀ p, offset / 2 ^ q.scBits % q.scPer ≤ p → p < offset / 2 ^ q.scBits % q.scPer + cnt →
+        Good q (l1e &&& L1E_OFFSET_MASK) (offset / q.cs % q.l2Size) t (e &&& L2E_OFFSET_MASK) p)
+    (hj : offset % q.cs + j < min ((cnt + offset / 2 ^ q.scBits % q.scPer) * 2 ^ q.scBits) (q.bn offset length))
+    (hsz : offset + j < q.size) :
+    ∃ e', q.guest b (offset + j) = q.byteOf b t e' (offset + j) ∧ t ≤ 5 ∧
+      (Chk t → hostOff e' = hostOff e + (offset % q.cs + j) / q.cs * q.cs) ∧
+      (t = SC_NORMAL → hostOff e' + q.bytesIn ((offset + j) / q.cs) ≤ q.dataFile.size) ∧
+      (t = SC_COMPRESSED → (offset % q.cs + j) / q.cs = 0 → e' = e ∧
+        q.compressionType = QCOW2_COMPRESSION_TYPE_ZLIB ∧ ∃ d, q.decomp e = .ok d ∧ q.clusterSize ≤ d.length) :=
+  mapped_byte q hc b offset length j l1e e bm t cnt hl1e hl2 hE hgood hj hsz
+
+/-! ### T4 — classification agrees with the specification -/
+
+/-- the code's masks are the specification's bit fields (for all 2^64 entries, by bit extensionality) -/
+theorem masks_are_fields (e : Nat) :
+    e &&& L2E_OFFSET_MASK = hostOff e ∧ e &&& L1E_OFFSET_MASK = hostOff e ∧
+    (e &&& QCOW_OFLAG_COMPRESSED ≠ 0 ↔ e.testBit 62 = true) ∧
+    (e &&& QCOW_OFLAG_ZERO ≠ 0 ↔ e.testBit 0 = true) ∧ (e &&& QCOW_OFLAG_COPIED ≠ 0 ↔ e.testBit 63 = true) :=
+  ⟨offset_mask e, l1_offset_mask e, compressed_flag e, zero_flag e, copied_flag e⟩
+
+/-- **classify_agrees**: on a conformant entry (standard or extended, every bitmap) `get_subcluster_type`
+    succeeds with a type ≤ COMPRESSED (never INVALID), and the specification's byte is what that type reads as -/
+theorem classify_agrees (q : QCow2) (h : HdrOK q) (b : File) (o : Nat)
+    (h1 : ¬ q.l1Size ≤ o / q.clusterSize / q.l2n) (h2 : ¬ q.l2Off (o / q.clusterSize) = 0)
+    (hok : EntryOK q (o / q.clusterSize)) :
+    ∃ t, q.subclusterType (q.entryAt (o / q.clusterSize)) (q.bmOf (o / q.clusterSize))
+        (o / 2 ^ q.scBits % q.scPer) = .ok t ∧ t ≤ 5 ∧
+      q.guest b o = q.byteOf b t (q.entryAt (o / q.clusterSize)) o ∧
+      (t = SC_NORMAL → hostOff (q.entryAt (o / q.clusterSize)) + q.bytesIn (o / q.clusterSize) ≤ q.dataFile.size) ∧
+      (t = SC_COMPRESSED → q.compressionType = QCOW2_COMPRESSION_TYPE_ZLIB ∧
+        ∃ d, q.decomp (q.entryAt (o / q.clusterSize)) = .ok d ∧ q.clusterSize ≤ d.length) :=
+  classify q (geom q h) b o h1 h2 hok
+
+/-- table access = the specification's table words (tables anywhere in the file) -/
+theorem l2Entry_is_table_word (q : QCow2) (h : HdrOK q) (l2Offset idx : Nat) (hin : l2Offset + q.cs ≤ q.fh.size)
+    (hidx : idx < q.l2Size) :
+    q.l2Entry l2Offset idx =
+      .ok (q.be64 (l2Offset + idx * q.entrySize), if q.sub = true then q.be64 (l2Offset + idx * q.entrySize + 8) else 0) :=
+  l2Entry_eq q (geom q h) l2Offset idx hin hidx
+
+/-! ### T6 — masks keep every offset the format can express -/
+
+/-- **mask_preserves_offsets**: a 512-aligned host offset below 2^56 survives the offset mask whatever flag /
+    reserved bits (0–8, 56–63) are set in the entry -/
+theorem mask_preserves_offsets (o f : Nat) (ho : o < 2 ^ 56) (hal : o % 2 ^ 9 = 0)
+    (hf : ∀ i, 9 ≤ i → i < 56 → f.testBit i = false) :
+    (o ||| f) &&& L2E_OFFSET_MASK = o ∧ (o ||| f) &&& L1E_OFFSET_MASK = o ∧ hostOff (o ||| f) = o := by
+  have hm : L2E_OFFSET_MASK = (2 ^ (56 - 9) - 1) <<< 9 := by decide
+  have h1 : (o ||| f) &&& L2E_OFFSET_MASK = o := by
+    rw [hm]; exact Wide.mask_preserves 9 56 o f (by decide) ho hal hf
+  exact ⟨h1, h1, by rw [← offset_mask]; exact h1⟩
+
+/-! ### T8 — compressed clusters -/
+
+/-- **compressed_slice**: descriptor decoding (`x = 62 − (cluster_bits − 8)`) is the specification's, the
+    inflater is called with the bound `cluster_size` exactly, the result is `(inflate buf cs)[o % cs, …)` -/
+theorem compressed_slice (q : QCow2) (hh : HdrOK q) (e offset n : Nat) :
+    q.readCompressed (e &&& L2E_COMPRESSED_OFFSET_SIZE_MASK) offset n =
+      if q.compressionType ≠ QCOW2_COMPRESSION_TYPE_ZLIB then .error .other
+      else (q.inflate (q.compBuf e) q.clusterSize).bind (fun dec => .ok ((dec.drop (offset % q.clusterSize)).take n)) :=
+  readCompressed_eq q hh e offset n
+
+/-! ### T5 — the read theorem -/
+
+/-- **qcow2_read_correct** (full generality: standard and extended L2 entries, compressed clusters, external
+    data file, backing file shorter / longer than the image, any number of L2 tables, tables and clusters
+    anywhere in the file, every cluster size 2^9 … 2^21): on a conformant image every in-range request
+    returns exactly the guest-visible bytes of the pointwise specification. -/
+theorem qcow2_read_correct (q : QCow2) (hc : Conformant q) (b : File) (hb : BackingIs q.backing b)
+    (off len : Nat) (h : off + len ≤ q.size) : q.read off len = .ok (slice (q.guest b) off len) :=
+  read_correct q hc b hb off len h
+
+theorem qcow2_reads_as (q : QCow2) (hc : Conformant q) (b : File) (hb : BackingIs q.backing b) :
+    ReadsAs q.read ⟨q.size, q.guest b⟩ :=
+  fun off len h => read_correct q hc b hb off len h
+
+/-- no backing file: the specification over the empty backing content -/
+theorem qcow2_read_correct_nobacking (q : QCow2) (hc : Conformant q) (hb : q.backing = none)
+    (off len : Nat) (h : off + len ≤ q.size) : q.read off len = .ok (slice (q.guest ⟨0, fun _ => 0⟩) off len) :=
+  read_correct q hc ⟨0, fun _ => 0⟩ (by unfold BackingIs; rw [hb]) off len h
+
+/-- a raw backing file `f`: the backing reader is `seek; read` on `f` -/
+theorem qcow2_read_correct_raw_backing (q : QCow2) (hc : Conformant q) (f : File)
+    (hb : q.backing = some (fun off n => .ok (f.read off n)))
+    (off len : Nat) (h : off + len ≤ q.size) : q.read off len = .ok (slice (q.guest f) off len) :=
+  read_correct q hc f (by unfold BackingIs; rw [hb]; intro _ _; rfl) off len h
+
+/-- the Boolean checker the driver evaluates on every generated image implies `Conformant` -/
+theorem qcow2_conformantb_sound (q : QCow2) (h : q.conformantb = true) : Conformant q := conformantb_sound q h
+
+/-- what `open` establishes of the hypotheses: header geometry, and the cached L1 table is the stored one -/
+theorem open_establishes (fh : File) (df : Option File) (bk : Option Reader) (allow : Bool)
+    (infl : Bytes → Nat → Except Err Bytes) (q : QCow2) (h : «open» fh df bk allow infl = .ok q) :
+    HdrOK q ∧ q.l1 ≠ .error .nonTermination ∧
+      (q.l1Offset + 8 * q.l1Size ≤ fh.size →
+        q.l1 = .ok (decodeBE64 q.l1Size (slice fh.byte q.l1Offset (8 * q.l1Size))).toArray) ∧ q.fh = fh :=
+  open_ok fh df bk allow infl q h
+
+/-! ### non-vacuity: a concrete image (512-byte clusters; L1 at 512, L2 at 1024, one data cluster at 1536;
+    guest cluster 0 normal, 1 zero, 2 unallocated) -/
+
+def exFile : File := ⟨2048, fun o =>
+  if o = 518 then 4            -- L1[0]   = 0x400 (L2 table at 1024)
+  else if o = 1030 then 6      -- L2[0]   = 0x600 (host cluster at 1536)
+  else if o = 1039 then 1      -- L2[1]   = zero flag
+  else if 1536 ≤ o then UInt8.ofNat (o % 251) else 0⟩
+
+def exQ : QCow2 :=
+  { fh := exFile, dataFile := exFile, hasDataFile := false, backing := none, version := 3, clusterBits := 9,
+    size := 1500, l1Size := 1, l1Offset := 512, sub := false, compressionType := 0, l1 := .ok #[1024],
+    inflate := fun _ _ => .error .other, backingName := none, exts := [], nbSnapshots := 0, snapshotsOffset := 0 }
+
+example : Conformant exQ := conformantb_sound exQ (by decide)
+example : exQ.read 510 4 = .ok [UInt8.ofNat (2046 % 251), UInt8.ofNat (2047 % 251), 0, 0] := by decide
 
 end Hv.C01
